@@ -80,7 +80,7 @@ type Explorer struct {
 
 func newWorld(ld *Loaded, id int) (*World, error) {
 	w := &World{prog: ld.prog, globals: map[*ssa.Global]*value{}, pkgInit: map[*ssa.Package]bool{}, pkgInitDone: map[*ssa.Package]bool{},
-		tt: NewTermTable(), id: id, funcs: map[*ssa.Function]int{}}
+		tt: NewTermTable(), id: id, funcs: map[*ssa.Function]int{}, varsMemo: map[*Term][]*Term{}}
 	s, err := StartSolver(gQueryTimeoutMs)
 	if err != nil {
 		return nil, err
@@ -126,8 +126,7 @@ func (ex *Explorer) fail(msg string) {
 }
 
 func (ex *Explorer) worker(id int) {
-	runtime.LockOSThread()
-	defer runtime.UnlockOSThread()
+	_ = runtime.NumCPU
 	w, err := newWorld(ex.ld, id)
 	if err != nil {
 		ex.fail(err.Error())
@@ -169,7 +168,7 @@ func (ex *Explorer) worker(id int) {
 		ex.merge(w, out)
 		if ex.res.Paths >= ex.maxPaths || time.Now().After(ex.deadline) {
 			if len(ex.queue) > 0 || ex.active > 0 {
-				ex.res.Inconclusive = appendUniq(ex.res.Inconclusive, fmt.Sprintf("exploration cap reached (paths=%d, queue=%d)", ex.res.Paths, len(ex.queue)))
+				ex.res.Inconclusive = appendUniq(ex.res.Inconclusive, "exploration cap reached (time or path budget) with work left: reduce the bound")
 			}
 			ex.stop = true
 		}
@@ -236,10 +235,11 @@ func (w *World) runPath(fn *ssa.Function, item workItem) (out pathOut) {
 	w.depth = 0
 	w.clockLast = nil
 	steps0 := w.steps
-	w.solver.Reset()
 	w.resetSched()
 	if w.tt.Size() > 2_000_000 {
 		w.tt = NewTermTable()
+		w.varsMemo = map[*Term][]*Term{}
+		w.solver.Reset()
 	}
 	func() {
 		defer func() {
